@@ -37,9 +37,29 @@ func vLens(k int) []int {
 	case 7:
 		return []int{1, 7, 8, 36}
 	case 8:
-		return []int{43, 44, 48}
+		return []int{43, 44, 45, 46, 48}
 	case 9:
 		return []int{3, 6, 7, 18, 19}
+	case 11:
+		return []int{13, 14, 15}
+	case 12:
+		return []int{2, 3, 4}
+	case 13, 17:
+		return []int{1, 2, 3}
+	case 14:
+		return []int{7, 8, 9}
+	case 15:
+		return []int{0, 1, 2}
+	case 16:
+		return []int{2, 3, 4, 5}
+	case 18:
+		return []int{15, 16, 17}
+	case 19:
+		return []int{0, 1, 2, 17, 18}
+	case 20:
+		return []int{10, 11, 12, 13, 14, 15, 16}
+	case 21:
+		return []int{4, 5, 6}
 	case 22:
 		return []int{28, 29, 44}
 	}
